@@ -423,8 +423,19 @@ def gen_clone(g, k):
     return [x.rstrip() for x in c]
 
 
+BOXED_CTORS = {"1", "2", "3", "6", "8", "9", "13", "16", "17", "22", "23"}
+
+
+def gen_boxed(g, k):
+    """the constructors that allocate: every boxed tag kind of multiboot2 and the information request tag of
+    multiboot2-header (request lists of every length 0..30)"""
+    c = [x for x in gen_ctor(g, k) if x.split()[1] in BOXED_CTORS]
+    c += [x for x in gen_hctor(g, k) if x.split()[1] == "1"]
+    return c
+
+
 GENS = OrderedDict([("ctor", gen_ctor), ("hctor", gen_hctor), ("build", gen_build), ("hbuild", gen_hbuild),
-                    ("newboxed", gen_newboxed), ("clone", gen_clone)])
+                    ("newboxed", gen_newboxed), ("clone", gen_clone), ("boxed", gen_boxed)])
 
 
 def abstract(s):
